@@ -8,6 +8,7 @@ import (
 
 	"ariga.io/atlas/sql/migrate"
 	"ariga.io/atlas/sql/mysql"
+	"ariga.io/atlas/sql/schema"
 )
 
 // C14 for a MySQL dev database bound to ONE database (the common `--dev-url mysql://.../dev`): the real driver
@@ -56,6 +57,31 @@ func c14MySQL(e *Env) {
 					e.Res.Violate("no-failing-input-found", "fakemysql-open-fails", fmt.Sprintf("%s: mysql.Open on the stand-in fails: %v", id, err), "correspondence C14 mysql", rep)
 					db.Close()
 					return
+				}
+				if nz, ok := drv.(schema.Normalizer); ok && ri == 0 && failAt == -1 {
+					// the normaliser (what an HCL desired state goes through): it uses the dev database - whatever the
+					// desired schema holds, also nothing at all - and must refuse one that is not clean / hand a clean one back
+					for _, des := range []*schema.Schema{
+						schema.New("app"),
+						schema.New("app").AddTables(schema.NewTable("users").AddColumns(schema.NewIntColumn("id", "int"))),
+						schema.New("app").SetCharset("latin1").AddTables(schema.NewTable("users").AddColumns(schema.NewIntColumn("id", "int"))),
+					} {
+						f.Execs = nil
+						_, nerr := nz.NormalizeSchema(ctx, des)
+						var nce *migrate.NotCleanError
+						nid := fmt.Sprintf("mysql: %s; NormalizeSchema of a schema with %d tables, charset set: %v", in.name, len(des.Tables), len(des.Attrs) > 0)
+						e.Res.Count("mysql-normalize/"+nid, true, "mysql-dev", "mysql-normalize")
+						switch {
+						case !in.clean && (nerr == nil || !errors.As(nerr, &nce)):
+							e.Res.Violate("failing-input", "non-empty-dev-accepted", fmt.Sprintf("%s: the normaliser accepts a dev database that is not clean (err=%v)", nid, nerr), "Props.C14.refuse_nonempty (mysql)", rep)
+						case in.clean && nerr != nil && len(f.Unknown) == 0:
+							e.Res.Violate("failing-input", "clean-dev-refused", fmt.Sprintf("%s: %v", nid, nerr), "Props.C14 (mysql)", rep)
+						}
+						if f.State() != before {
+							e.Res.Violate("failing-input", "dev-not-returned-as-found", fmt.Sprintf("%s: the dev database is not handed back as it was found: before {%s}, after {%s}; statements: %v", nid, before, f.State(), f.Execs), "Props.C14.restore_exact (mysql)", rep)
+						}
+					}
+					f.Execs, f.Unknown = nil, nil
 				}
 				restore, err := drv.(migrate.Snapshoter).Snapshot(ctx)
 				var nc *migrate.NotCleanError
